@@ -4,6 +4,8 @@ package main
 // success edges of error-returning calls, dominance, path queries.
 
 import (
+	"fmt"
+	"sort"
 	"go/constant"
 	"go/token"
 	"go/types"
@@ -32,17 +34,28 @@ func (c *Call) Args() []ssa.Value {
 	if cc.IsInvoke() {
 		return cc.Args
 	}
-	if f := cc.StaticCallee(); f != nil && f.Signature.Recv() != nil && len(cc.Args) > 0 {
+	if f := cc.StaticCallee(); f != nil && hasRecv(f) && len(cc.Args) > 0 {
 		return cc.Args[1:]
 	}
 	return cc.Args
+}
+
+// hasRecv: f is a method (the signature of an instantiation over type parameters may have lost its receiver).
+func hasRecv(f *ssa.Function) bool {
+	if f.Signature.Recv() != nil {
+		return true
+	}
+	if o := f.Origin(); o != nil && o.Signature.Recv() != nil {
+		return true
+	}
+	return false
 }
 func (c *Call) Recv() ssa.Value {
 	cc := c.Instr.Common()
 	if cc.IsInvoke() {
 		return cc.Value
 	}
-	if f := cc.StaticCallee(); f != nil && f.Signature.Recv() != nil && len(cc.Args) > 0 {
+	if f := cc.StaticCallee(); f != nil && hasRecv(f) && len(cc.Args) > 0 {
 		return cc.Args[0]
 	}
 	return nil
@@ -533,42 +546,59 @@ func pathSearch(f *ssa.Function, from ssa.Instruction, fromBlock *ssa.BasicBlock
 	if len(f.Blocks) == 0 {
 		return false, nil, nil
 	}
+	// The search is path-sensitive for one idiom only: nil-ness of values tested with ==/!= nil.
+	// Facts learned at a branch are carried along the path (through phis, by incoming edge), and a
+	// later branch on a value whose nil-ness is known follows only the feasible edge. This removes
+	// the infeasible paths of "if err == nil { err = g() }; if err != nil { return }".
+	type facts map[ssa.Value]bool // value -> isNil
 	type st struct {
-		b   *ssa.BasicBlock
-		idx int
+		b     *ssa.BasicBlock
+		idx   int
+		fc    facts
+		trail *trailNode
 	}
-	start := st{f.Blocks[0], 0}
+	key := func(b *ssa.BasicBlock, fc facts) string {
+		if len(fc) == 0 {
+			return fmt.Sprintf("%d", b.Index)
+		}
+		var ks []string
+		for v, n := range fc {
+			ks = append(ks, fmt.Sprintf("%s=%v", v.Name(), n))
+		}
+		sort.Strings(ks)
+		return fmt.Sprintf("%d|%s", b.Index, strings.Join(ks, ","))
+	}
+	start := st{b: f.Blocks[0], idx: 0, fc: facts{}}
 	if from != nil {
-		start = st{from.Block(), idxOf(from) + 1}
+		start = st{b: from.Block(), idx: idxOf(from) + 1, fc: facts{}}
 	} else if fromBlock != nil {
-		start = st{fromBlock, 0}
+		start = st{b: fromBlock, idx: 0, fc: facts{}}
 	}
-	prev := map[*ssa.BasicBlock]*ssa.BasicBlock{}
-	visited := map[*ssa.BasicBlock]bool{}
+	start.trail = &trailNode{start.b, nil}
+	visited := map[string]bool{}
 	q := []st{start}
-	first := true
+	steps := 0
 	for len(q) > 0 {
 		s := q[0]
 		q = q[1:]
+		steps++
+		if steps > 50000 {
+			break
+		}
 		if s.idx == 0 {
-			if visited[s.b] {
+			k := key(s.b, s.fc)
+			if visited[k] {
 				continue
 			}
-			visited[s.b] = true
-		} else if !first {
-			continue
+			visited[k] = true
 		}
-		first = false
 		blocked := false
 		for k := s.idx; k < len(s.b.Instrs); k++ {
 			ins := s.b.Instrs[k]
 			if target(ins) {
 				var path []*ssa.BasicBlock
-				for b := s.b; b != nil; b = prev[b] {
-					path = append([]*ssa.BasicBlock{b}, path...)
-					if b == start.b {
-						break
-					}
+				for t := s.trail; t != nil; t = t.prev {
+					path = append([]*ssa.BasicBlock{t.b}, path...)
 				}
 				return true, path, ins
 			}
@@ -580,19 +610,90 @@ func pathSearch(f *ssa.Function, from ssa.Instruction, fromBlock *ssa.BasicBlock
 		if blocked {
 			continue
 		}
-		for _, nb := range s.b.Succs {
+		// which successors are feasible?
+		feasible := []bool{true, true}
+		var learn [2]map[ssa.Value]bool
+		if iff, ok := s.b.Instrs[len(s.b.Instrs)-1].(*ssa.If); ok {
+			cond := iff.Cond
+			neg := false
+			for {
+				if u, isU := cond.(*ssa.UnOp); isU && u.Op == token.NOT {
+					cond = u.X
+					neg = !neg
+					continue
+				}
+				break
+			}
+			if bo, isBo := cond.(*ssa.BinOp); isBo && (bo.Op == token.EQL || bo.Op == token.NEQ) {
+				var v ssa.Value
+				if isNilConst(bo.Y) {
+					v = bo.X
+				} else if isNilConst(bo.X) {
+					v = bo.Y
+				}
+				if v != nil {
+					trueMeansNil := bo.Op == token.EQL
+					if neg {
+						trueMeansNil = !trueMeansNil
+					}
+					if known, ok := s.fc[v]; ok {
+						// edge 0 taken iff cond true
+						condTrue := known == trueMeansNil
+						feasible[0], feasible[1] = condTrue, !condTrue
+					} else {
+						learn[0] = map[ssa.Value]bool{v: trueMeansNil}
+						learn[1] = map[ssa.Value]bool{v: !trueMeansNil}
+					}
+				}
+			}
+		}
+		for si, nb := range s.b.Succs {
+			if si < 2 && !feasible[si] {
+				continue
+			}
 			if cutBack && nb.Dominates(s.b) {
 				continue
 			}
-			if !visited[nb] {
-				if _, ok := prev[nb]; !ok {
-					prev[nb] = s.b
-				}
-				q = append(q, st{nb, 0})
+			nf := facts{}
+			for v, n := range s.fc {
+				nf[v] = n
 			}
+			if si < 2 && learn[si] != nil {
+				for v, n := range learn[si] {
+					nf[v] = n
+				}
+			}
+			// phis of nb take the operand of the edge from s.b
+			pi := -1
+			for i, p := range nb.Preds {
+				if p == s.b {
+					pi = i
+				}
+			}
+			for _, ins := range nb.Instrs {
+				phi, ok := ins.(*ssa.Phi)
+				if !ok {
+					break
+				}
+				delete(nf, phi)
+				if pi >= 0 {
+					e := phi.Edges[pi]
+					if isNilConst(e) {
+						nf[phi] = true
+					} else if n, ok := nf[e]; ok {
+						nf[phi] = n
+					}
+				}
+			}
+			q = append(q, st{b: nb, idx: 0, fc: nf, trail: &trailNode{nb, s.trail}})
 		}
 	}
 	return false, nil, nil
+}
+
+type trailNode struct {
+	b    *ssa.BasicBlock
+	prev *trailNode
 }
 
 func isSuccessReturn(i ssa.Instruction) bool {
